@@ -68,6 +68,10 @@ func main() {
 		os.Exit(2)
 	}
 	stream := os.Args[1]
+	if stream == "isochild" && len(os.Args) == 7 {
+		isoChild(os.Args[2:])
+		return
+	}
 	if stream == "crashchild" && len(os.Args) == 3 {
 		crashChild(os.Args[2])
 		return
